@@ -6,14 +6,16 @@ CHECK = {
              "minimal;all); detector map {inner->0} with the non-zero-deposit filter off/on; {inner->0, "
              "world->1} + filter; {inner->3, world->0} + filter (ids neither contiguous nor in volume "
              "order); two recorders with disjoint detector maps asking for the filter (on;off) and "
-             "(off;on); detector maps with the selections {energy_deposition} (no pre-step field) and "
+             "(off;on) and (on;on: merged filter on with two callbacks); detector maps with the selections {energy_deposition} (no pre-step field) and "
              "{parent_id, step_length, pre.energy, post.pos}; SimpleCalo alone with labels {inner,g1} and "
              "{g1,inner}; one recorder selecting only flag k for each of the 17 StepSelection flags; two "
              "recorders selecting only flags k and (k+5) mod 17} x slots {1,2,8} x streams {1, 2 "
-             "alternating from root to root} (quick: 2 streams for 6 of the 15 modes, one-flag "
+             "changing from root to root, stream and event id decoupled from the start position / energy / "
+             "particle of the root} (quick: 2 streams for 6 of the 16 modes, one-flag "
              "configurations with 2 slots), modes 0 and 4 also with track order reindex_shuffle / "
              "reindex_status (thorough: + reindex_particle_type, reindex_both_action, init_charge) so that "
-             "thread id != slot id, always with ActionDiagnostic and StepDiagnostic attached, x primaries "
+             "thread id != slot id, always with ActionDiagnostic and StepDiagnostic attached (64+2 bins; 2+2 "
+             "bins in m0.s8.t1 and m4.s8.t1 so that the overflow clamp binds), x primaries "
              "{gamma,e-,e+} x energies x positions with event ids 0..3. With a detector map every recorder "
              "also runs the real copy_steps() into a reused DetectorStepOutput. After every root the three "
              "tallies are clear()ed and must read zero. non-trivial = execution with >=1 deviation, "
